@@ -276,7 +276,13 @@ func runCk(f []string) (o core.Outcome) {
 	first := true
 	for _, kv := range cks {
 		val := kv.v
-		if len(val) == 2 && val[0] == 'w' && val[1] >= '0' && val[1] <= '7' {
+		if len(val) == 2 && val[0] == 'p' && val[1] >= '0' && val[1] <= '7' {
+			// a truncated token: only a prefix of the HMAC
+			full, _ := reverseproxy.VerifHashCookie(cookieSecret, probeDial(int(val[1]-'0')))
+			val = full[:16]
+		} else if val == "e" {
+			val = "" // an empty cookie value
+		} else if len(val) == 2 && val[0] == 'w' && val[1] >= '0' && val[1] <= '7' {
 			// the token of probe upstream j under another secret: a forged cookie
 			val, _ = reverseproxy.VerifHashCookie("not-the-secret", probeDial(int(val[1]-'0')))
 		} else if len(val) == 2 && val[0] == 't' && val[1] >= '0' && val[1] <= '7' {
@@ -402,11 +408,13 @@ func genCk(rng *core.Rand) string {
 	var cks []hexPair
 	for i := rng.Intn(4); i > 0; i-- {
 		v := "t" + strconv.Itoa(rng.Intn(nProbe))
-		switch rng.Intn(4) {
+		switch rng.Intn(5) {
 		case 0:
 			v = "x" + strconv.Itoa(rng.Intn(100))
 		case 1:
 			v = "w" + strconv.Itoa(rng.Intn(nProbe)) // forged with another secret
+		case 2:
+			v = []string{"p" + strconv.Itoa(rng.Intn(nProbe)), "e"}[rng.Intn(2)] // truncated token / empty value
 		}
 		cks = append(cks, hexPair{rng.Pick(names), v})
 	}
